@@ -29,6 +29,7 @@ ASSUMPTIONS = [
 ]
 MIN_OBS = {"repeat_commutes_checked": 500, "witness_targets_evaluated": 2000, "refused": 100, "full": 300, "partial": 20}
 KINDS = ["calc", "dedup", "proj", "sel", "slice", "sort", "join"]
+CURRENT_KINDS = ["calc", "dedup", "proj", "sel", "slice", "sort", "cap", "rev"]  # incl. extension operations
 _state: dict = {}
 
 
@@ -85,6 +86,10 @@ def gen_op(rng, kind, cols, tag_pool, fixed_cols_pool):
             return None
         terms = [[exprs.gen_e(rng, cols, 1, need_col=True), rng.random() < 0.5] for _ in range(rng.randint(1, 2))]
         return ["sort", terms]
+    if kind == "cap":
+        return ["cap", rng.choice([0, 1, 2, 3, 5])]
+    if kind == "rev":
+        return ["rev"]
     if kind == "join":
         fcols = sorted(c for c in fixed_cols_pool if rng.random() < 0.5)
         shared_nonkey = [c for c in fcols if not is_key(c) and c in cols]
@@ -102,7 +107,7 @@ def gen_case(rng, tier):
         tcols = sorted(set(tcols) | {"a"})
     rows = gen_rows(rng, tcols, rng.choice([0, 1, 2, 3, 5, 7]))
     for _ in range(20):
-        cur = gen_op(rng, rng.choice(KINDS[:-1]), tcols, ["e", "f"], ["a", "b", "c", "d", "e", "f"])
+        cur = gen_op(rng, rng.choice(CURRENT_KINDS), tcols, ["e", "f"], ["a", "b", "c", "d", "e", "f"])
         if cur is not None:
             break
     # columns after the existing operation
@@ -148,6 +153,14 @@ def to_op(spec, fixed_engine):
         return R.Slice(spec[1], spec[2]), None
     if k == "sort":
         return R.Sort(tuple(R.SortTerm(exprs.elib(e), asc) for e, asc in spec[1])), None
+    if k == "cap":
+        from ..ext import RowCap
+
+        return RowCap(spec[1]), None
+    if k == "rev":
+        from ..ext import Reverse
+
+        return Reverse(), None
     if k == "join":
         ftags = [T(c) for c in spec[3]]
         frows = [dict(zip(ftags, r)) for r in spec[4]]
